@@ -156,9 +156,11 @@ class Type3Tag(nfc.tag.Tag):
         # class that is returned by the Tag.ndef attribute.
 
         def _read_attribute_data(self):
+            self._attribute_read_error = None
             try:
                 data = self._tag.read_from_ndef_service(0)
-            except Type3TagCommandError:
+            except Type3TagCommandError as error:
+                self._attribute_read_error = error
                 return None
 
             if data is None:
@@ -234,6 +236,11 @@ class Type3Tag(nfc.tag.Tag):
 
         def _write_ndef_data(self, data):
             attributes = self._read_attribute_data()
+            if attributes is None:
+                log.debug("ndef attribute data could not be read")
+                if self._attribute_read_error is not None:
+                    raise self._attribute_read_error
+                raise Type3TagCommandError(DATA_SIZE_ERROR)
             attributes['writef'] = 0x0F
             self._write_attribute_data(attributes)
 
